@@ -281,6 +281,8 @@ func TestVerifC07(t *testing.T) {
 			break
 		}
 	}
+	// end to end: the same classes through /api/list of the real handler set (its own factory)
+	c07EndToEnd(R)
 	// a short-lived factory: real expiry (lifetime 1 s, wait 3 s)
 	fs, _ := NewWebSessionFactory(time.Second)
 	_, _, shortTok := fs.Generate("bob", true)
@@ -348,4 +350,67 @@ func TestVerifC07(t *testing.T) {
 	R.Case("real-expiry", true)
 	R.Sample(map[string]any{"issued": toks[0].Text, "user": toks[0].User, "admin": toks[0].Admin, "classes": "bitflip/char-substitution/truncation/extension/splice/other-instance/chosen-plaintext"})
 	_ = bytes.Equal
+}
+
+
+func c07EndToEnd(R *vr.Result) {
+	rng := R.Rand("c07-e2e")
+	dir := ovlWork("c07-e2e")
+	sets := ref.CheapSets(rng, 1)
+	st := ovlMkStore(rng, dir, sets, 1, []ovlUser{{Name: "root", Pw: "root-pw", Admin: true, Set: 1}, {Name: "alice", Pw: "alice-pw", Set: 1}})
+	ag, err := NewStore(st.Cfg, "", "", "", "")
+	if err != nil {
+		R.Fatal = err.Error()
+		return
+	}
+	mux, _ := newWebHandler(ag.GetInterface())
+	mux2, _ := newWebHandler(ag.GetInterface()) // a second handler set = another instance's factory
+	w := &c06World{}
+	login := func(m http.Handler, u, p string) string {
+		_, mm, _, _ := w.post(m, "/api/authenticate", []byte(fmt.Sprintf(`{"username":%q,"password":%q}`, u, p)))
+		s, _ := mm["session"].(string)
+		return s
+	}
+	list := func(tok string) (int, bool, string) {
+		code, mm, _, pan := w.post(mux, "/api/list", []byte(fmt.Sprintf(`{"session":%q}`, tok)))
+		return code, mm["list"] != nil, pan
+	}
+	root := login(mux, "root", "root-pw")
+	alice := login(mux, "alice", "alice-pw")
+	foreign := login(mux2, "root", "root-pw")
+	if code, has, _ := list(root); code != 200 || !has {
+		R.Violate("c07:e2e:valid-admin-token-refused", fmt.Sprintf("status %d", code), "e2e", nil)
+	}
+	present := func(class, tok string, wantOK bool) {
+		code, has, pan := list(tok)
+		R.Case("e2e|"+tok, true)
+		R.Count("e2e_presented", 1)
+		if pan != "" {
+			R.Violate("c07:e2e:panic:"+class, pan, "e2e/"+class, tok)
+		} else if (code == 200) != wantOK || (has && !wantOK) {
+			R.Violate(fmt.Sprintf("c07:e2e:%s:status-200=%v", class, code == 200), fmt.Sprintf("/api/list with a %s token: status %d, list disclosed=%v", class, code, has), "e2e/"+class, tok)
+		}
+	}
+	present("ordinary-user", alice, false)
+	present("other-instance", foreign, false)
+	a, b, _ := strings.Cut(root, ":")
+	na, nb := unb64(a), unb64(b)
+	for bit := 0; bit < (len(na)+len(nb))*8; bit += 3 {
+		x, y := append([]byte{}, na...), append([]byte{}, nb...)
+		if bit/8 < len(x) {
+			x[bit/8] ^= 1 << uint(bit%8)
+		} else {
+			y[bit/8-len(x)] ^= 1 << uint(bit%8)
+		}
+		present("bitflip", b64(x)+":"+b64(y), false)
+	}
+	for n := 0; n < len(root); n += 2 {
+		present("prefix-truncation", root[:n], false)
+		present("suffix-truncation", root[n+1:], false)
+	}
+	aa, ab, _ := strings.Cut(alice, ":")
+	present("splice", a+":"+ab, false)
+	present("splice", aa+":"+b, false)
+	present("nonce-short", b64(na[:8])+":"+b, false)
+	present("nonce-long", b64(append(na, 1, 2, 3, 4))+":"+b, false)
 }
